@@ -84,3 +84,192 @@ pub fn sound(result: &LuaValue, actual: V) -> bool {
 pub fn describe(result: &LuaValue) -> String {
     format!("{:?}", result)
 }
+
+// ------------------------------------------------------------------------------------------------
+// children of node-step harnesses
+
+use darklua_core::nodes::*;
+use darklua_core::process::Evaluator;
+
+pub fn binary_operator(op: u8) -> BinaryOperator {
+    match op {
+        0 => BinaryOperator::And,
+        1 => BinaryOperator::Or,
+        2 => BinaryOperator::Equal,
+        3 => BinaryOperator::NotEqual,
+        4 => BinaryOperator::LowerThan,
+        5 => BinaryOperator::LowerOrEqualThan,
+        6 => BinaryOperator::GreaterThan,
+        7 => BinaryOperator::GreaterOrEqualThan,
+        8 => BinaryOperator::Plus,
+        9 => BinaryOperator::Minus,
+        10 => BinaryOperator::Asterisk,
+        11 => BinaryOperator::Slash,
+        12 => BinaryOperator::DoubleSlash,
+        13 => BinaryOperator::Percent,
+        14 => BinaryOperator::Caret,
+        _ => BinaryOperator::Concat,
+    }
+}
+
+pub fn unary_operator(op: u8) -> UnaryOperator {
+    match op {
+        0 => UnaryOperator::Not,
+        1 => UnaryOperator::Minus,
+        _ => UnaryOperator::Length,
+    }
+}
+
+/// What the harness decided about one child of the node under test.
+#[derive(Clone, Copy)]
+pub struct Child {
+    pub operand: Operand,
+    /// executing the child can call out (function call, metamethod)
+    pub effects: bool,
+    /// what `has_side_effects(child)` answers: true whenever `effects` (induction hypothesis)
+    pub effects_answer: bool,
+}
+
+pub const SLOTS: usize = 6;
+pub static mut CHILD_ANSWER_KIND: [u8; SLOTS] = [7; SLOTS];
+pub static mut CHILD_ANSWER_NUMBER: [f64; SLOTS] = [0.0; SLOTS];
+pub static mut CHILD_EFFECTS_ANSWER: [bool; SLOTS] = [false; SLOTS];
+
+fn kind_of(v: V) -> (u8, f64) {
+    match v {
+        V::Nil => (0, 0.0),
+        V::False => (1, 0.0),
+        V::True => (2, 0.0),
+        V::Number(n) => (3, n),
+        V::Str => (4, 0.0),
+        V::Table => (5, 0.0),
+        V::Function => (6, 0.0),
+    }
+}
+
+pub fn any_child<S: Source>(s: &mut S) -> Child {
+    let operand = any_operand(s);
+    let effects = s.any_bool();
+    let effects_answer = s.any_bool();
+    // induction hypothesis on the side-effect analysis: never misses an effect
+    s.assume(effects_answer || !effects);
+    // a child whose value the evaluator knows exactly is a literal-like tree; executing it may
+    // still call out only if the analysis says so
+    Child { operand, effects, effects_answer }
+}
+
+/// Under Kani: an identifier leaf named after its slot, whose `evaluate` / `has_side_effects`
+/// answers are served by the stubs below. Natively: the smallest real expression realising the
+/// child (`true`, `1.5`, `{}`, `x`, `f()`...), evaluated by the real, unstubbed code.
+pub fn child_expression(slot: usize, child: Child) -> Expression {
+    #[cfg(kani)]
+    {
+        let (kind, number) = kind_of(child.operand.actual);
+        unsafe {
+            CHILD_ANSWER_KIND[slot] = if child.operand.known { kind } else { 7 };
+            CHILD_ANSWER_NUMBER[slot] = number;
+            CHILD_EFFECTS_ANSWER[slot] = child.effects_answer;
+        }
+        Expression::identifier(SLOT_NAMES[slot])
+    }
+    #[cfg(not(kani))]
+    {
+        let _ = kind_of;
+        realise(slot, child)
+    }
+}
+
+pub const SLOT_NAMES: [&str; SLOTS] = ["a", "b", "c", "d", "e", "f"];
+
+#[cfg(not(kani))]
+pub fn realise(slot: usize, child: Child) -> Expression {
+    if child.effects_answer {
+        // the only leaf-like expression with effects: a call (its value is unknown)
+        return FunctionCall::from_name(SLOT_NAMES[slot]).into();
+    }
+    if !child.operand.known {
+        return Expression::identifier(SLOT_NAMES[slot]);
+    }
+    match child.operand.actual {
+        V::Nil => Expression::nil(),
+        V::False => Expression::from(false),
+        V::True => Expression::from(true),
+        V::Number(n) => DecimalNumber::new(n).into(),
+        V::Str => StringExpression::from_value("s").into(),
+        V::Table => TableExpression::default().into(),
+        V::Function => FunctionExpression::default().into(),
+    }
+}
+
+/// Natively a child with effects is realised as a call, whose value the real evaluator does not
+/// know: such a child must have been drawn as unknown for the replay to be faithful.
+pub fn realisable(child: Child) -> bool {
+    !(child.effects_answer && child.operand.known)
+}
+
+fn slot_of(expression: &Expression) -> usize {
+    match expression {
+        Expression::Identifier(identifier) => {
+            let name = identifier.get_name().as_bytes();
+            if name.len() == 1 && name[0] >= b'a' && name[0] < b'a' + SLOTS as u8 {
+                (name[0] - b'a') as usize
+            } else {
+                SLOTS
+            }
+        }
+        _ => SLOTS,
+    }
+}
+
+/// Stub for `Evaluator::evaluate` in node-step harnesses: the induction hypothesis.
+pub fn evaluate_stub(_evaluator: &Evaluator, expression: &Expression) -> LuaValue {
+    let slot = slot_of(expression);
+    if slot >= SLOTS {
+        return LuaValue::Unknown;
+    }
+    let (kind, number) = unsafe { (CHILD_ANSWER_KIND[slot], CHILD_ANSWER_NUMBER[slot]) };
+    match kind {
+        0 => LuaValue::Nil,
+        1 => LuaValue::False,
+        2 => LuaValue::True,
+        3 => LuaValue::Number(number),
+        4 => LuaValue::String(vec![b's']),
+        5 => LuaValue::Table,
+        6 => LuaValue::Function,
+        _ => LuaValue::Unknown,
+    }
+}
+
+/// Stub for `Evaluator::has_side_effects` in node-step harnesses.
+pub fn has_side_effects_stub(_evaluator: &Evaluator, expression: &Expression) -> bool {
+    let slot = slot_of(expression);
+    if slot >= SLOTS {
+        return true;
+    }
+    unsafe { CHILD_EFFECTS_ANSWER[slot] }
+}
+
+/// `number_coercion` restricted to operands that are not strings: the identity.
+pub fn number_coercion_stub(value: LuaValue) -> LuaValue {
+    value
+}
+
+/// `string_coercion`: a number becomes *some* string (its digits are outside the claim).
+pub fn string_coercion_stub(value: LuaValue) -> LuaValue {
+    match value {
+        LuaValue::Number(_) => LuaValue::String(vec![b'n']),
+        other => other,
+    }
+}
+
+pub fn any_evaluator<S: Source>(s: &mut S) -> (Evaluator, bool) {
+    let pure = s.any_bool();
+    (
+        if pure {
+            Evaluator::default().assume_pure_metamethods()
+        } else {
+            Evaluator::default()
+        },
+        pure,
+    )
+}
